@@ -113,16 +113,12 @@ Proof.
         exists (x :: l1), a, l2. split; [reflexivity|]. split; [right; exact H1|exact H2].
 Qed.
 
-Lemma cand_seq_nodup p ents pe pn cands :
-  NoDup (map n_cons cands) ->
-  is_perm pe (length (usort (map n_ent cands))) -> is_perm pn (length cands) ->
-  NoDup (map n_cons (cand_seq p ents pe pn cands)).
+Lemma cand_seq_nodup p ents pe cands sh :
+  NoDup (map n_cons sh) ->
+  is_perm pe (length (usort (map n_ent cands))) ->
+  NoDup (map n_cons (cand_seq_sh p ents pe cands sh)).
 Proof.
-  intros Hnd Hpe Hpn. unfold cand_seq.
-  set (sh := apply_perm pn cands).
-  assert (Hsh : NoDup (map n_cons sh)).
-  { eapply Permutation_NoDup; [|exact Hnd]. apply Permutation_map. symmetry.
-    apply apply_perm_perm. exact Hpn. }
+  intros Hsh Hpe. unfold cand_seq_sh.
   pose proof (by_stake_nodup p ents pe cands Hpe) as HL.
   induction (by_stake p ents pe cands) as [|a r IH]; cbn [flat_map map]; [constructor|].
   inversion HL as [|? ? Ha Hr]; subst. rewrite map_app. apply nodup_app.
@@ -136,49 +132,40 @@ Proof.
     subst n2. apply Ha. rewrite <- E1, E2. exact He'.
 Qed.
 
-(* validators are taken in descending entity-stake order: an eligible entity
-   left out never has more escrow than a represented one (ties are free) *)
-Theorem validators_by_descending_stake p ents epoch nodes pe pn vals vents :
-  NoDup (map n_cons nodes) ->
-  is_perm pe (length (usort (map n_ent (vcands p ents epoch nodes)))) ->
-  is_perm pn (length (vcands p ents epoch nodes)) ->
+(* descending-stake order for ANY shuffled candidate list [sh] with unique
+   consensus keys: an entity with a node in [sh] that is left out never has
+   more escrow than a represented one *)
+Theorem core_by_descending_stake p ents pe cands sh vals vents :
+  NoDup (map n_cons sh) -> (forall n, In n sh -> In n cands) ->
+  is_perm pe (length (usort (map n_ent cands))) ->
   1 <= p_per p -> p_bypass p = false ->
-  elect_validators p ents epoch nodes pe pn = VOk vals vents ->
-  by_descending_stake p ents epoch nodes vals.
+  elect_core p ents pe cands sh = VOk vals vents ->
+  forall e e', (exists n, In n sh /\ n_ent n = e) -> ~ represented vals e -> represented vals e' ->
+               escrow_of ents e <= escrow_of ents e'.
 Proof.
-  intros Hnd Hpe Hpn Hper Hby H e e' Hel Hnr Hr.
-  destruct (elect_ok_inv _ _ _ _ _ _ _ _ H) as [acc [Hf [-> _]]].
-  set (cands := vcands p ents epoch nodes) in *.
-  assert (Hcnd : NoDup (map n_cons cands)).
-  { unfold cands, vcands, live_nodes. apply nodup_map_filter, nodup_map_filter.
-    eapply Permutation_NoDup; [|exact Hnd]. apply Permutation_map. symmetry. apply sort_by_perm. }
-  pose proof (cand_seq_nodup p ents pe pn cands Hcnd Hpe Hpn) as Hcs.
+  intros Hsh Hincl Hpe Hper Hby H e e' Hel Hnr Hr.
+  destruct (elect_ok_inv _ _ _ _ _ _ _ H) as [acc [Hf [-> _]]].
+  pose proof (cand_seq_nodup p ents pe cands sh Hsh Hpe) as Hcs.
   destruct (fill_keeps _ _ _ _ _ _ _ Hcs Hf) as [cs1 [cs2 [Hsplit [_ [H3 [_ H5]]]]]].
-  (* the represented entity has a processed node *)
   destruct Hr as [kv [Hkv Hek]]. apply In_sort_by in Hkv.
   destruct (H5 kv Hkv) as [[]|[n' [pw' [Hn' ->]]]]. unfold ent_of in Hek. cbn [fst snd] in Hek.
-  (* the unrepresented eligible entity has a block, none of it processed *)
-  destruct Hel as [n0 [Hn0 [Hl0 [Hc0 He0]]]].
-  assert (Hn0c : In n0 cands) by (apply vcands_spec; tauto).
-  set (sh := apply_perm pn cands) in *.
-  assert (Hn0s : In n0 sh).
-  { eapply Permutation_in; [symmetry; apply apply_perm_perm; exact Hpn|exact Hn0c]. }
+  destruct Hel as [n0 [Hn0s He0]].
   assert (HeL : In e (by_stake p ents pe cands)).
   { eapply Permutation_in; [symmetry; apply by_stake_perm; exact Hpe|].
-    apply In_usort. rewrite <- He0. apply in_map. exact Hn0c. }
+    apply In_usort. rewrite <- He0. apply in_map. apply Hincl. exact Hn0s. }
   assert (Hblock : exists m, In m (picks p sh e)).
   { unfold picks. assert (Hf0 : In n0 (filter (fun n => n_ent n =? e) sh)) by (apply filter_In; split; [exact Hn0s|lia]).
     destruct (filter (fun n => n_ent n =? e) sh) as [|m fr]; [contradiction|].
     exists m. destruct (N.to_nat (p_per p)) eqn:Ek; [lia|]. left. reflexivity. }
   destruct Hblock as [m Hm].
   assert (Hmc : In m (cs1 ++ cs2)).
-  { rewrite <- Hsplit. unfold cand_seq. apply in_flat_map. exists e. split; [exact HeL|exact Hm]. }
+  { rewrite <- Hsplit. unfold cand_seq_sh. apply in_flat_map. exists e. split; [exact HeL|exact Hm]. }
   pose proof (picks_ent _ _ _ _ Hm) as [Hme _].
   apply in_app_or in Hmc. destruct Hmc as [Hmc|Hmc].
   { exfalso. apply Hnr. destruct (H3 m Hmc) as [pw Hin]. eexists. split.
     - apply In_sort_by. exact Hin.
     - unfold ent_of. cbn [fst snd]. exact Hme. }
-  unfold cand_seq in Hsplit. fold sh in Hsplit.
+  unfold cand_seq_sh in Hsplit.
   destruct (flat_split (picks p sh) n_ent (fun x n Hx => proj1 (picks_ent p sh x n Hx))
               _ _ _ n' m Hsplit Hn' Hmc) as [l1 [a [l2 [HL [H1 H2]]]]].
   rewrite Hek in H1. rewrite Hme in H2.
@@ -187,18 +174,135 @@ Proof.
   exact (sorted_desc_split (escrow_of ents) l1 a l2 e' e Hsorted H1 H2).
 Qed.
 
+Lemma vcands_nodup_cons p ents epoch nodes :
+  NoDup (map n_cons nodes) -> NoDup (map n_cons (vcands p ents epoch nodes)).
+Proof.
+  intros Hnd. unfold vcands, live_nodes. apply nodup_map_filter, nodup_map_filter.
+  eapply Permutation_NoDup; [|exact Hnd]. apply Permutation_map. symmetry. apply sort_by_perm.
+Qed.
+
+(* validators are taken in descending entity-stake order: an eligible entity
+   left out never has more escrow than a represented one (ties are free) *)
+Theorem validators_by_descending_stake p ents epoch nodes pe pn vals vents :
+  NoDup (map n_cons nodes) ->
+  is_perm pe (length (usort (map n_ent (vcands p ents epoch nodes)))) ->
+  is_perm pn (length (vcands p ents epoch nodes)) ->
+  1 <= p_per p -> p_bypass p = false ->
+  elect_validators p ents epoch nodes pe pn = VOk vals vents ->
+  by_descending_stake p ents epoch nodes no_extra vals.
+Proof.
+  intros Hnd Hpe Hpn Hper Hby H e e' Hel Hnr Hr.
+  set (cands := vcands p ents epoch nodes) in *.
+  pose proof (apply_perm_perm _ _ Hpn) as Hperm.
+  unfold elect_validators in H. fold cands in H.
+  eapply (core_by_descending_stake p ents pe cands (apply_perm pn cands)); try eassumption.
+  - eapply Permutation_NoDup; [apply Permutation_map; symmetry; exact Hperm|].
+    apply vcands_nodup_cons. exact Hnd.
+  - intros n Hn. eapply In_apply_perm. exact Hn.
+  - destruct Hel as [n0 [Hn0 [Hl0 [Hc0 [_ He0]]]]]. exists n0. split; [|exact He0].
+    eapply Permutation_in; [symmetry; exact Hperm|]. apply vcands_spec. tauto.
+Qed.
+
+(* sortNodesByHashedBeta keeps the consensus keys distinct *)
+Lemma vrf_collect_nodup beta l : forall seen,
+  NoDup (map n_cons l) -> NoDup (map n_cons (map snd (vrf_collect beta l seen))).
+Proof.
+  induction l as [|x r IH]; intros seen Hnd; cbn [vrf_collect map]; [constructor|].
+  cbn [map] in Hnd. inversion Hnd as [|? ? Hx Hr]; subst.
+  destruct (beta (n_id x)) as [bx|]; [|apply IH; exact Hr].
+  destruct (memN bx seen); [apply IH; exact Hr|].
+  cbn [map snd]. constructor; [|apply IH; exact Hr].
+  intros Hin. apply Hx. apply in_map_iff in Hin. destruct Hin as [m [Hm Hin]].
+  apply in_map_iff in Hin. destruct Hin as [[b m'] [E Hin]]. cbn [snd] in E. subst m'.
+  apply vrf_collect_In in Hin. rewrite <- Hm. apply in_map. tauto.
+Qed.
+Lemma vrf_sort_nodup beta l : NoDup (map n_cons l) -> NoDup (map n_cons (vrf_sort beta l)).
+Proof.
+  intros Hnd. unfold vrf_sort.
+  eapply Permutation_NoDup; [|apply (vrf_collect_nodup beta l [] Hnd)].
+  apply Permutation_map, Permutation_map. symmetry. apply sort_by_perm.
+Qed.
+(* with distinct hashed betas every candidate with a proof takes part in the sortition *)
+Lemma vrf_collect_complete beta l : forall seen n b,
+  In n l -> beta (n_id n) = Some b -> ~ In b seen ->
+  (forall m, In m l -> beta (n_id m) = Some b -> m = n) ->
+  In (b, n) (vrf_collect beta l seen).
+Proof.
+  induction l as [|x r IH]; intros seen n b Hn Hb Hs Hinj; [contradiction|].
+  cbn [vrf_collect]. destruct Hn as [->|Hn].
+  - rewrite Hb. destruct (memN b seen) eqn:Em.
+    + exfalso. apply Hs. unfold memN in Em. apply existsb_exists in Em.
+      destruct Em as [y [Hy Ey]]. assert (y = b) by lia. subst. exact Hy.
+    + left. reflexivity.
+  - assert (Hrec : forall seen', ~ In b seen' -> In (b, n) (vrf_collect beta r seen')).
+    { intros seen' Hs'. apply IH; [exact Hn|exact Hb|exact Hs'|].
+      intros m Hm. apply Hinj. right. exact Hm. }
+    destruct (beta (n_id x)) as [bx|] eqn:Ex; [|apply Hrec; exact Hs].
+    destruct (memN bx seen); [apply Hrec; exact Hs|].
+    destruct (N.eq_dec bx b) as [->|Hne].
+    + assert (x = n) by (apply Hinj; [left; reflexivity|exact Ex]). subst. left. reflexivity.
+    + right. apply Hrec. intros [E|E]; [exact (Hne E)|exact (Hs E)].
+Qed.
+Lemma vrf_sort_complete beta l n b :
+  In n l -> beta (n_id n) = Some b ->
+  (forall m, In m l -> beta (n_id m) = Some b -> m = n) ->
+  In n (vrf_sort beta l).
+Proof.
+  intros Hn Hb Hinj. unfold vrf_sort. apply in_map_iff. exists (b, n). split; [reflexivity|].
+  apply In_sort_by. apply vrf_collect_complete; try assumption. intros [].
+Qed.
+
+(* VRF backend: the same order among the entities that take part in the
+   shuffle in use -- all eligible ones when the election falls back to the
+   entropy shuffle, the ones with a submitted proof under sortition (hashed
+   betas pairwise distinct, i.e. no TupleHash collision) *)
+Definition vrf_extra (p : params) (beta : N -> option N) (cands : list node) : node -> bool :=
+  if len (filter (has_pi beta) cands) <? p_min p then no_extra else has_pi beta.
+Theorem validators_by_descending_stake_vrf p ents epoch nodes pe pn beta vals vents :
+  NoDup (map n_cons nodes) ->
+  is_perm pe (length (usort (map n_ent (vcands p ents epoch nodes)))) ->
+  is_perm pn (length (vcands p ents epoch nodes)) ->
+  (forall m n b, In m (vcands p ents epoch nodes) -> In n (vcands p ents epoch nodes) ->
+                 beta (n_id m) = Some b -> beta (n_id n) = Some b -> m = n) ->
+  1 <= p_per p -> p_bypass p = false ->
+  elect_validators_vrf p ents epoch nodes pe pn beta = VOk vals vents ->
+  by_descending_stake p ents epoch nodes (vrf_extra p beta (vcands p ents epoch nodes)) vals.
+Proof.
+  intros Hnd Hpe Hpn Hinj Hper Hby H e e' Hel Hnr Hr.
+  set (cands := vcands p ents epoch nodes) in *.
+  pose proof (apply_perm_perm _ _ Hpn) as Hperm.
+  unfold elect_validators_vrf in H. fold cands in H. unfold vrf_extra in Hel.
+  destruct Hel as [n0 [Hn0 [Hl0 [Hc0 [Hx0 He0]]]]].
+  assert (Hn0c : In n0 cands) by (apply vcands_spec; tauto).
+  destruct (len (filter (has_pi beta) cands) <? p_min p).
+  - eapply (core_by_descending_stake p ents pe cands (apply_perm pn cands)); try eassumption.
+    + eapply Permutation_NoDup; [apply Permutation_map; symmetry; exact Hperm|].
+      apply vcands_nodup_cons. exact Hnd.
+    + intros n Hn. eapply In_apply_perm. exact Hn.
+    + exists n0. split; [|exact He0]. eapply Permutation_in; [symmetry; exact Hperm|exact Hn0c].
+  - eapply (core_by_descending_stake p ents pe cands (vrf_sort beta cands)); try eassumption.
+    + apply vrf_sort_nodup, vcands_nodup_cons. exact Hnd.
+    + intros n Hn. apply vrf_sort_In in Hn. tauto.
+    + exists n0. split; [|exact He0]. unfold has_pi in Hx0.
+      destruct (beta (n_id n0)) as [b|] eqn:Eb; [|discriminate].
+      apply (vrf_sort_complete beta cands n0 b Hn0c Eb).
+      intros m Hm Hbm. eapply Hinj; eassumption.
+Qed.
+
 (* ---------- determinism: the result is a function of the SETS of nodes and accounts ---------- *)
 Theorem elect_deterministic i i' :
   Permutation (i_nodes i) (i_nodes i') -> NoDup (map n_id (i_nodes i)) ->
   Permutation (i_ents i) (i_ents i') -> NoDup (map e_addr (i_ents i)) ->
   i_params i = i_params i' -> i_epoch i = i_epoch i' -> i_rts i = i_rts i' ->
   i_perm_e i = i_perm_e i' -> i_perm_n i = i_perm_n i' -> i_perm_c i = i_perm_c i' ->
-  i_current i = i_current i' -> i_fv261 i = i_fv261 i' ->
+  i_current i = i_current i' -> i_fv261 i = i_fv261 i' -> i_vrf i = i_vrf i' ->
+  i_base i = i_base i' -> i_changed i = i_changed i' -> i_slashed i = i_slashed i' ->
   run_epoch i = run_epoch i'.
 Proof.
-  intros Hn Hnn He Hne E1 E2 E3 E4 E5 E6 E7 E8. unfold run_epoch.
+  intros Hn Hnn He Hne E1 E2 E3 E4 E5 E6 E7 E8 E9 E10 E11 E12.
+  unfold run_epoch, committee_nodes, vrf_blocked, committee_srcs.
   rewrite (sort_by_unique n_id _ _ Hn Hnn), (sort_by_unique e_addr _ _ He Hne).
-  rewrite E1, E2, E3, E4, E5, E6, E7, E8. reflexivity.
+  rewrite E1, E2, E3, E4, E5, E6, E7, E8, E9, E10, E11, E12. reflexivity.
 Qed.
 
 (* ---------- the validator diff ---------- *)
